@@ -19,7 +19,7 @@ RULE = (
     "between: values, node-observation multisets and the setup entries recorded in .results must be equal "
     "and equal to the reference. (gather) k in 2..6 concurrent awaits (asyncio.gather) of ONE AsyncDAG with distinct "
     "argument tuples, with its setup nodes run beforehand or (half of the cases) not: each await returns the reference value for its own arguments and "
-    "the pooled observation multiset is the sum of the k reference multisets. (live) AsyncDAGs whose pooled nodes are "
+    "the pooled observation multiset is the sum of the k reference multisets. (live; the waiting node may be sequential / prioritised) AsyncDAGs whose pooled nodes are "
     "all async-thread: (i) a node blocks until a sibling coroutine of the same loop sets an event, (ii) the first node "
     "of each of k gathered executions waits on a k-party barrier, (iii) a node fails while a sibling async-thread node "
     "is still waiting for a coroutine of the loop - all can only complete if the loop keeps serving "
@@ -31,7 +31,7 @@ ASSUMPTIONS = [
     "thread-resource nodes blocking the loop is documented behaviour and is not tested against (live cases use async-thread only)",
     "setup nodes are run before concurrent awaits (documented restriction)",
 ]
-BUDGET = {"quick": {"shards": 4, "seconds": 40}, "thorough": {"shards": 16, "seconds": 420}}
+BUDGET = {"quick": {"shards": 8, "seconds": 40}, "thorough": {"shards": 16, "seconds": 420}}
 LIVE_TIMEOUT = 15.0
 
 
